@@ -119,6 +119,23 @@ EXTRA = {
  "C19": " Also: other spellings of the rate, whole-life runs with signals and a refusing chronyd sampled every 10 ms, thread-spawn delays through strace injection, 7300-outcome lives of the writer thread (drift field of every record).",
 }
 
+# What round 5 added (DESIGN.md B.9).
+EXTRA5 = {
+ "C03": " Round 5: a reader attached before the header is damaged in place and the daemon restarted over it through the re-initialisation path (6 kinds of damage x 3 generations).",
+ "C04": " Round 5: the release binary killed and restarted over its own segment under a client attached all along, file timestamps from 20 years ago to the future (inode, size and the old mapping watched).",
+ "C07": " Round 5: PHC error bounds up to i64::MAX (the sum saturates: fix 85a2235), outage messages between the reports of the sweep.",
+ "C08": " Round 5: PHC bounds the field cannot hold; failed polls handed on as measurements and reports altered by the poller (real-poller layer).",
+ "C09": " Round 5: restart over a segment that holds only the placeholder record, the real ShmWriter as the sink; PHC bounds the field cannot hold as first report.",
+ "C10": " Round 5: the real poller over a real socket, every reply different from its neighbours in every classified field (leap, reference time, interval incl. 0 after non-zero, offset, delay, dispersion); the report handed to the writer is compared with the wire field by field.",
+ "C11": " Round 5: the single-writer monitor on the whole daemon (signals, worker deaths, the polling thread dying while the writer thread is held up).",
+ "C13": " Round 5: a PHC attribute that reads back without a value (empty, newline, blanks, not a number) through the release binary.",
+ "C15": " Round 5: chronyd quick, then persistently slow, then the writer dies at a given time (failpoint action panicafter).",
+ "C16": " Round 5: permission errors through an unprivileged client (EACCES; read-only segments must open), a FIFO fed by a writer, header images inside the record area of files with an unusable header, a fresh open at every point of an update around the generation wrap.",
+ "C17": " Round 5: two threads with their own contexts failing with different error kinds at the same time.",
+ "C18": " Round 5: the segment re-initialised in place under a reader that is inside its copy; the segment file removed and created anew (never initialised) under a long-lived Rust and C client.",
+ "C19": " Round 5: lives in which a worker thread dies on an indigestible chronyd reply, the drift field sampled through the wind-down.",
+}
+
 
 def main():
     props = [json.loads(l)["id"] for l in open(os.path.join(V, "properties.jsonl"))]
@@ -127,8 +144,8 @@ def main():
         if pid not in CHECKS:
             continue
         level, text, note, tech, ref = CHECKS[pid]
-        text = text + EXTRA.get(pid, "")
-        ref = ref + ", B.6, B.7"
+        text = text + EXTRA.get(pid, "") + EXTRA5.get(pid, "")
+        ref = ref + ", B.6, B.7, B.9"
         checks.append({
             "property_id": pid,
             "quick_cmd": "./check %s quick" % pid,
